@@ -93,6 +93,29 @@ def cases(tier, rng):
                     cs.expect = ("fq", t, {1: [expected(t, m, b"peer1") for m in ms]})
                     out.append(cs)
                     n += 1
+    # REP: a request is outstanding (received, not yet answered); a further recv is started, polled and abandoned;
+    # the reply must still go out behind the request's envelope — the abandoned call must not have touched it
+    for env in ([], [b"hop-1"], [b"hop-1", b"hop-2"]):
+        for k in (1, 2, 3):
+            for r in (1, 2):
+                sc = wg.Script()
+                sc.sock(1, "REP")
+                sc.attach(1, 1, "REQ", b"peer1")
+                sc.add("wire 1")
+                sc.reveal_msg(1, env + [b"", b"question"])
+                f = sc.fut()
+                sc.add(f"recv {f} 1", f"poll {f}")
+                for _ in range(r):
+                    g = sc.fut()
+                    sc.add(f"recv {g} 1")
+                    sc.add(*[f"poll {g}"] * k)
+                    sc.add(f"drop {g}")
+                h = sc.fut()
+                sc.add(f"send {h} 1 {wg.hx(b'answer')}", f"poll {h}", "wire 1")
+                cs = sc.case(f"cancel-then-reply-REP#{n}", ["cancel-then-reply"])
+                cs.expect = ("rep-reply", env)
+                out.append(cs)
+                n += 1
     # REQ: the abandoned recv is still owed
     for k in (1, 2, 3):
         for reply_first in (False, True):
@@ -161,6 +184,16 @@ def oracle(case, lines):
     if lost:
         return lost
     if not case.expect:
+        return None
+    if case.expect[0] == "rep-reply":
+        env = case.expect[1]
+        res = list(zip(case.ops, lines[1:]))
+        sent = [l for op, l in res if op.startswith("poll")][-1]
+        wire = res[-1][1]
+        want = "wire " + wg.show_wire([env + [b"", b"answer"]])
+        if sent != "ready ok" or wire != want:
+            return (f"after an abandoned recv the reply to the outstanding request did not go out behind its envelope "
+                    f"{[e.decode() for e in env]}: send={sent}, {wire} (expected {want})")
         return None
     if case.expect[0] == "req":
         sends = []
